@@ -26,7 +26,7 @@ COMPONENTS = {"real": ["yowsup.layers.protocol_notifications", "protocol_contact
 ASSUMPTIONS = ["six 1.17 shim", "actor assumption (one event at a time per account)", "the picture notification that is neither "
                "set nor delete is excluded (rejected by design)", "pure key-distribution payloads are excluded",
                "supported media delivered to the application is acknowledged by the application double, not judged here"]
-BUDGET = {"quick": (800, 150), "thorough": (20000, 2400)}
+BUDGET = {"quick": (800, 150), "thorough": (100000, 2700)}
 FAULTS = ["srv_dup_delivery"]
 PROBES = ["notif_ack", "call_offer_receipt", "call_ack", "pong", "unpresentable_receipt", "media_module_off_message",
           "encrypt_count_upload", "dup_answered_twice", "group_participant_ack", "participant_ack_for_id_without_dash"]
